@@ -57,6 +57,13 @@ ALLOWED = {
 }
 
 
+# package functions that hand their argument to a contracted eval sink and rely on a precondition of the CALLER (the argument is the printed form of a
+# closed literal expression): every call of one of them is itself a sink site and needs its own entry (dunder methods are reached implicitly and their
+# contracts hold for every string, so they are not listed)
+WRAPPER_SINKS = sorted(set(f.split('.')[-1] for (m, f, c) in ALLOWED if c in ('eval', 'exec', 'compile') and not f.split('.')[-1].startswith('__')))
+ALLOWED[('transforms/constant_folding', 'FoldConstants.visit_BinOp', 'safe_eval')] = (2, None)     # argument shape: contracts/folding.py (C12/evaluator precondition)
+
+
 def _enclosing(fi, node):
     best = '<module>'
     for q, n in fi.by_qual.items():
@@ -79,16 +86,20 @@ def task_inventory():
         fi = source.file_info(path)
         mod = path[len(source.PKG) + 1:-3]
         imported = set()
+        wrappers = set(WRAPPER_SINKS)
         for n in pyast.walk(fi.tree):
             if isinstance(n, pyast.Import):
                 imported.update((a.asname or a.name).split('.')[0] for a in n.names)
             elif isinstance(n, pyast.ImportFrom):
                 imported.update(a.asname or a.name for a in n.names)
+                wrappers.update(a.asname for a in n.names if a.asname and (a.name in WRAPPER_SINKS or a.name in DANGEROUS_NAMES))     # a sink imported under another name
         for n in pyast.walk(fi.tree):
             if isinstance(n, pyast.Call):
                 callee = None
-                if isinstance(n.func, pyast.Name) and n.func.id in DANGEROUS_NAMES:
+                if isinstance(n.func, pyast.Name) and (n.func.id in DANGEROUS_NAMES or n.func.id in wrappers):
                     callee = n.func.id
+                elif isinstance(n.func, pyast.Attribute) and n.func.attr in wrappers:
+                    callee = n.func.attr
                 elif isinstance(n.func, pyast.Attribute):
                     base = n.func.value
                     root = base
